@@ -102,6 +102,13 @@ func genIDCase(stream bool) func(t *rapid.T) IDCase {
 			return c
 		}
 		n := rapid.SampledFrom([]int{0, 1, 1, 2, 3, 5, 8}).Draw(t, "before")
+		if rapid.IntRange(0, 7).Draw(t, "manyBefore") == 0 {
+			// "until the matching one or the deadline arrives": no count of strays ends the skipping
+			n = rapid.SampledFrom([]int{15, 16, 17, 31, 32, 33, 64, 100, 255, 256, 257}).Draw(t, "beforeMany")
+			if rapid.Bool().Draw(t, "beforeAny") {
+				n = rapid.IntRange(9, 400).Draw(t, "beforeN")
+			}
+		}
 		for i := 0; i < n; i++ {
 			k := rapid.SampledFrom([]string{"foreign", "foreign", "stale", "dup"}).Draw(t, "kind")
 			switch {
@@ -142,6 +149,9 @@ func genIDCase(stream bool) func(t *rapid.T) IDCase {
 		for i := range c.Replies {
 			if c.Replies[i].Kind == "foreign-malformed" {
 				continue
+			}
+			if len(c.Replies) > 24 && i >= 4 && i < len(c.Replies)-4 {
+				continue // long runs of strays: only the first and the last few are sized (cost)
 			}
 			switch rapid.IntRange(0, 3).Draw(t, "sizeKind") {
 			case 0:
@@ -203,6 +213,12 @@ func checkID(c IDCase) error {
 	}
 	if foreignBefore > 0 {
 		cl = append(cl, "foreign-before")
+	}
+	if foreignBefore >= 16 {
+		cl = append(cl, "foreign-before>=16")
+	}
+	if foreignBefore >= 256 {
+		cl = append(cl, "foreign-before>=256")
 	}
 	for _, r := range c.Replies {
 		cl = append(cl, "kind="+r.Kind)
